@@ -96,7 +96,12 @@ Definition check (c : case) : verdict :=
   (* where the abstract index is not claimed to behave like the code: node
      compression (C06-F3) and stale key names (C06-F5), unless repaired *)
   let structural := (negb (fix_F3 fx) && guard_F3 ops) || (negb (fix_F5 fx) && guard_F5 ops) in
-  {| v_corr := ct && (structural || cm);
+  (* with fixes/C06-F4.diff the repository deletes the very route OBJECT; the models
+     compare routes structurally, which is the same unless two equal rule objects
+     are loaded at once — possible only with duplicate ids in a set (C06-F6) or
+     when an existing set is created again; those histories are not compared then *)
+  let blind := fix_F4 fx && (guard_dupid ops || negb (wf_history ops)) in
+  {| v_corr := blind || (ct && (structural || cm));
      v_prop := negb (wf_history ops) || pr;
      v_guards := guards [(1%Z, guard_F1 ops); (2%Z, guard_F2 ops); (3%Z, negb (fix_F3 fx) && guard_F3 ops);
                          (4%Z, negb (fix_F4 fx) && guard_F4 ops); (5%Z, negb (fix_F5 fx) && guard_F5 ops);
